@@ -34,11 +34,23 @@ class AkaiImageParser(Image):
         self._partitions_loaded_flag = False
 
 
+    @staticmethod
+    def _partition_letters(index: int) -> str:
+        # A .. Z, then AA, AB, ...: the characters behind "Z" are not 
+        # letters, and "a" is read as "A" when a path is resolved
+        letters = ""
+        index += 1
+        while index > 0:
+            index, remainder = divmod(index - 1, 26)
+            letters = chr(ord("A") + remainder) + letters
+        return letters
+
+
     def _load_partitions(self):
         partition_cnt = 0
         partitions = []
         while self.file.tell() < self.file_size:
-            name = chr(ord("A") + partition_cnt)
+            name = self._partition_letters(partition_cnt)
             try:
                 partition = PartitionParser.parse_stream(
                     self.file,  # type: ignore
